@@ -45,7 +45,7 @@ func (fr *frame) builtin(b *ssa.Builtin, cc *ssa.CallCommon, args []Val, st *Sta
 	case "copy":
 		return fr.copyBuiltin(cc, args, st, reach)
 	case "delete":
-		ex.mapDelete(st, args[0], args[1].L[0])
+		ex.mapDelete(st, args[0], ex.mapKeyTerm(args[0].T.Underlying().(*types.Map), args[1]))
 		return Val{}
 	case "close":
 		return Val{}
